@@ -266,7 +266,8 @@ def class_membership(pid, texts):
     exe = os.path.join(LEAN, '.lake', 'build', 'bin', 'spclass')
     flags = CLASS_FLAGS.get(pid, [])
     if not flags or not os.path.exists(exe) or not texts:
-        return {'flags': flags, 'note': 'C04: every scenario of family serial is a well-formed serial line (L.WF) by construction'
+        return {'flags': flags, 'note': 'C04: every scenario of families serial / serialq is a well-formed serial line (L.WF) by construction; serial_timing speaks about a '
+                'constant source budget, the topped-up budgets of serialq are covered by correspondence and the reference monitor only'
                 if pid == 'C04' else 'not evaluated'}
     try:
         p = subprocess.run([exe], input=''.join(texts), capture_output=True, text=True, timeout=600)
